@@ -225,17 +225,39 @@ def takeSeconds (s : Str) : Option (Str × Str × Str) :=
     else none
   | [] => none
 
-/-- the groups of `^PT(?:(\d+)H)?(?:(\d+)M)?(?:(\d+)(?:\.(\d+))?S)?(?<!PT)$` (ASCII digits; `$` also
-    matches before one trailing newline): hours, minutes, seconds, fraction (`none` = group absent) -/
+/-- optional group `(?:(\d+)<term>)?`: the digits if present, and the rest -/
+def optComp (term : Nat) (s : Str) : Option Str × Str :=
+  match takeComp term s with
+  | some (d, r') => (some d, r')
+  | none => (none, s)
+
+/-- optional group `(?:(\d+)(?:\.(\d+))?S)?` -/
+def optSeconds (s : Str) : Option (Str × Str) × Str :=
+  match takeSeconds s with
+  | some (d, f, r') => (some (d, f), r')
+  | none => (none, s)
+
+/-- `$` also matches before one trailing newline -/
+def dropNewline (s : Str) : Str := if s.getLast? = some 10 then s.dropLast else s
+
+/-- the part behind `PT` -/
+def durationBody (s : Str) : Option Str :=
+  match dropNewline s with
+  | [] => none
+  | p :: rest => match rest with
+    | [] => none
+    | t :: r => if p = 80 ∧ t = 84 then some r else none
+
+/-- the groups of `^PT(?:(\d+)H)?(?:(\d+)M)?(?:(\d+)(?:\.(\d+))?S)?(?<!PT)$` (ASCII digits):
+    hours, minutes, (seconds, fraction) (`none` = group absent, fraction `[]` = absent) -/
 def durationGroups (s : Str) : Option (Option Str × Option Str × Option (Str × Str)) :=
-  let s := if s.getLast? = some 10 then s.dropLast else s
-  match s with
-  | 80 :: 84 :: r =>
-    let (h, r1) := match takeComp 72 r with | some (d, r') => (some d, r') | none => (none, r)
-    let (m, r2) := match takeComp 77 r1 with | some (d, r') => (some d, r') | none => (none, r1)
-    let (sf, r3) := match takeSeconds r2 with | some (d, f, r') => (some (d, f), r') | none => (none, r2)
-    if r3.isEmpty ∧ ¬ r.isEmpty then some (h, m, sf) else none
-  | _ => none
+  match durationBody s with
+  | none => none
+  | some r =>
+    let hr := optComp 72 r
+    let mr := optComp 77 hr.2
+    let sr := optSeconds mr.2
+    if sr.2.isEmpty ∧ ¬ r.isEmpty then some (hr.1, mr.1, sr.1) else none
 
 /-- `float(f'{seconds}.{fraction}')` (correctly rounded) -/
 def floatOfDecimal (sec frac : Str) : Fp :=
